@@ -239,7 +239,25 @@ func (e *StringExpr) Check(ctx *CheckCtx) error {
 	return nil
 }
 
+// tryRewriteNameExpr replaces the name of a select field by a reference to
+// the field's expression
+func tryRewriteNameExpr(expr Expression, ctx *CheckCtx) Expression {
+	if nameExpr, ok := expr.(*NameExpr); ok {
+		if nexpr, have := ctx.GetNamedExpr(nameExpr.Data); have {
+			return &FieldReferenceExpr{
+				Name:      nameExpr,
+				FieldExpr: nexpr,
+			}
+		}
+	}
+	return expr
+}
+
 func (e *NotExpr) Check(ctx *CheckCtx) error {
+	e.Right = tryRewriteNameExpr(e.Right, ctx)
+	if err := e.Right.Check(ctx); err != nil {
+		return err
+	}
 	if e.Right.ReturnType() != TBOOL {
 		return NewSyntaxError(e.Right.GetPos(), "! operator right expression has wrong type")
 	}
@@ -298,6 +316,12 @@ func (e *ListExpr) Check(ctx *CheckCtx) error {
 	if len(e.List) == 0 {
 		return NewSyntaxError(e.GetPos(), "Empty list")
 	}
+	for i, item := range e.List {
+		e.List[i] = tryRewriteNameExpr(item, ctx)
+		if err := e.List[i].Check(ctx); err != nil {
+			return err
+		}
+	}
 	if len(e.List) > 1 {
 		ftype := e.List[0].ReturnType()
 		for i, item := range e.List[1:] {
@@ -310,6 +334,10 @@ func (e *ListExpr) Check(ctx *CheckCtx) error {
 }
 
 func (e *FieldAccessExpr) Check(ctx *CheckCtx) error {
+	e.Left = tryRewriteNameExpr(e.Left, ctx)
+	if err := e.Left.Check(ctx); err != nil {
+		return err
+	}
 	_, leftIsFAE := e.Left.(*FieldAccessExpr)
 	lrType := e.Left.ReturnType()
 	switch lrType {
